@@ -43,7 +43,8 @@ CHECKS = {
              'that keeps the constraint hash indexes (inside impl Table, by kind of Vec operation) and the user-defined index '
              'registry (every executor/storage call site of Table mutators, summaries to fix-point) in step, and that no error '
              'return separates a mutation from its maintenance. The mutator API is re-derived from the facts and the check fails '
-             'closed when it grows.',
+             'closed when it grows. Also: a column that leaves the rows is followed by a rebuild of the per-constraint hash indexes, and '
+             'whether the new key of an updated row enters an index does not depend on the NULL-ness of its old key.',
         note='Not decided: that maintenance computes correct keys/positions (value-level); disk I/O errors inside index code. '
              'Assumes catalog knows every stored table inside vibesql-storage (C33 clause).',
         design='§4 C15 (plan) and §10.3 (as built)'),
@@ -83,7 +84,8 @@ CHECKS['C12'] = dict(
     technique='inter-procedural must-precede of FK child-side / parent-side checks before mutation sites (with the foreign_keys.is_empty idiom); per-variant arm table of the ReferentialAction dispatch',
     text='Decides that insert/update sites are preceded by the child-side foreign-key validation wherever the schema has foreign keys, that '
          'row deletion/truncation sites are preceded by the parent-side check, and that the ReferentialAction match is exhaustive, its '
-         'NO ACTION/RESTRICT arms reject and its CASCADE/SET NULL/SET DEFAULT arms call the action of the same name.',
+         'NO ACTION/RESTRICT arms reject and its CASCADE/SET NULL/SET DEFAULT arms call the action of the same name. Also: every syntactic form '
+         'that declares a foreign key (table-level FOREIGN KEY, column-level REFERENCES) is matched by an executor arm that registers it.',
     note='Not decided: key comparison semantics, cascade order, whether a SET DEFAULT value has a parent.',
     design='§4 C12 (plan) and §10.3 (as built)')
 CHECKS['C33'] = dict(
@@ -138,7 +140,9 @@ CHECKS['C06'] = dict(
     technique='visitor-completeness analysis (T9) of the WHERE-pushdown table-reference walker against the Expression ADT; per-variant truthiness-table agreement (T8) of all SELECT-side keep/drop functions',
     text='Decides that every Expression variant with expression children is visited or answered conservatively by the walker that decides '
          'which table a conjunct may be pushed to (children are read from the ADT, so new variants are covered), and that all SELECT-side '
-         'functions turning a predicate value into keep/drop share one per-variant table (bool / non-zero / false / error).',
+         'functions turning a predicate value into keep/drop share one per-variant table (bool / non-zero / false / error). Also: constant '
+         'folding only over literal children, the columnar predicate extractor accepts only what it emits, and no result path of the select '
+         'executor forgets the WHERE clause (it is handed to a function or found absent on every path to a successful return).',
     note='Not decided: Kleene semantics of AND/OR/NOT on every value, LIKE/BETWEEN semantics.',
     design='§4 C06 (plan) and §10.3 (as built)')
 CHECKS['C09'] = dict(
@@ -272,7 +276,8 @@ CHECKS['C23'] = dict(
     technique='whole-call-graph may-panic inventory over MIR (assert terminators, panicking library calls, explicit panics) with dominance-based discharge rules and a reviewed table (T5); strongly-connected-component analysis of the call graph with depth-guard detection (T6); per-function control-flow cycle analysis for input consumption (loop progress)',
     text='Decides, for everything reachable from Parser::parse_sql, that no construct can panic except those proved safe by a dominating guard '
          'or individually reviewed, that every recursive cycle enforces a nesting limit (today: it does not - two known findings), and that '
-         'every loop consumes input on each cycle. These hold for all input strings because the inventory is complete for the compiled code.',
+         'every loop consumes input on each cycle - also when re-walked under the assumption that the current token is the end of input, where '
+         'Parser::advance no longer moves. These hold for all input strings because the inventory is complete for the compiled code.',
     note='Not decided: time bounds beyond progress; recursion when the produced tree is dropped; allocation size (tokens are proportional to input).',
     design='§4 C23 (plan) and §10.3 (as built)')
 
